@@ -10,7 +10,8 @@ property -> [(sibling, prefix of `rule-id:instance-key`, reason[, "zero-expected
 """
 
 SHARED = {
-    "C01": [("C10", "R5.need-rekey-only-when-idle", "a pending re-key must not interrupt a partly read packet: its bytes would be dropped and the stream lose framing")],
+    "C01": [("C03", "R6.", "the whole framed packet reaches the socket: a cursor left over from an earlier iteration drops bytes and the peer loses framing"),
+            ("C10", "R5.need-rekey-only-when-idle", "a pending re-key must not interrupt a partly read packet: its bytes would be dropped and the stream lose framing")],
     "C02": [("C03", "R4.mac-size", "the MAC compared is the algorithm's full length: a shorter tag is forgeable by enumeration")],
     "C03": [("C01", "R1.direction", "the outbound framing mode comes from the outbound algorithm's fields"),
             ("C01", "R5.etm-from-name", "encrypt-then-MAC framing follows the MAC name of that direction")],
